@@ -747,6 +747,96 @@ def gen_tagname_case(rng):
             "texts": [], "reexpand": rng.random() < 0.5, "install_reexpanded": rng.random() < 0.3}
 
 
+def gen_just_below_case(rng):
+    """directed family: a product is set up ALONE (-j) by a line of a DEPENDENCY's table - directly below the top table
+    or one level further down - and the table that is expanded names the same product on a line of its own, before or
+    after the line that brings that dependency (or not at all, or itself with -j).  Table.dependencies does not descend
+    below a -j line, so what lies below the product is reached through the top table's own line only.
+        p1 leaf;  p2 -> p1 (sometimes);  p3 -> p2 (and sometimes p1);  p4 -> p3 -j;  p5 -> p4;  p6 (top) -> p4 | p5, p3
+    The build is made of several requests, as a developer makes them: the dependency that brings p3 alone and then what
+    p3 needs, or p3 first (with what it needs) and then that dependency."""
+    P = "envPrepend(PATH, ${PRODUCT_DIR}/bin)"
+    v = {n: rng.choice(setupsim.VERSIONS) for n in ("p1", "p2", "p3", "p4", "p5", "p6")}
+
+    def link(kind, name):
+        return "%s(%s%s)" % (kind, name, rng.choice(["", "", " " + v[name]]))
+    just = rng.choice(["setupRequired(p3 -j)", "setupRequired(p3 -j)", "setupOptional(p3 -j)", "setupRequired(p3 -j %s)" % v["p3"],
+                       "setupRequired(-j p3)"])
+    tables = {n: [P] for n in v}
+    if rng.random() < 0.5:
+        tables["p2"].append(link("setupRequired", "p1"))
+    needs = ["p2"]
+    tables["p3"].append(link(rng.choice(["setupRequired", "setupRequired", "setupOptional"]), "p2"))
+    if rng.random() < 0.3:
+        tables["p3"].insert(rng.randrange(1, 3), link("setupRequired", "p1"))
+        needs.append("p1")
+    tables["p4"].append(just)
+    if rng.random() < 0.3:
+        tables["p4"].insert(rng.randrange(1, 3), link("setupRequired", "p1"))
+    tables["p5"].append(link("setupRequired", "p4"))
+    via = rng.choice(["p4", "p4", "p5"])
+    how = rng.choice(["later", "later", "later", "earlier", "earlier", "absent", "just"])
+    kind3 = rng.choice(["setupRequired", "setupRequired", "setupOptional"])
+    l_via, l_p3 = link("setupRequired", via), link(kind3, "p3")
+    if how == "just":
+        l_p3 = "%s(p3 -j%s)" % (kind3, rng.choice(["", " " + v["p3"]]))
+    top = [P] + {"later": [l_via, l_p3], "earlier": [l_p3, l_via], "absent": [l_via], "just": [l_via, l_p3]}[how]
+    if rng.random() < 0.4:
+        top.insert(rng.randrange(1, len(top) + 1), rng.choice(OTHER_LINES) % 3)
+    if how in ("absent", "just"):
+        build = [[via, None]]
+    elif rng.random() < 0.6:
+        build = [[via, None]] + [[n, None] for n in needs]
+    else:
+        build = [["p3", rng.choice([None, v["p3"]])], [via, None]]
+    used = ["p1", "p2", "p3", "p4", "p6"] + (["p5"] if via == "p5" else [])
+    prods = {n: {v[n]: tables[n]} for n in used}
+    prods["p6"][v["p6"]] = decorate(rng, top, flavors=(FLAVOR,)) if rng.random() < 0.5 else top
+    for n in ("p1", "p2"):
+        if rng.random() < 0.3:                  # another version, not current
+            prods[n][rng.choice([u for u in setupsim.VERSIONS if u != v[n]])] = list(tables[n])
+    world = {"root": "stack", "products": prods, "current": {n: v[n] for n in prods}, "generic": gen_generic(rng, prods)}
+    ops = []
+    for n in ("p1", "p2", "p3", "p4"):
+        r = rng.random()
+        if r < 0.6:
+            ops.append({"op": "declare", "name": n, "version": "4.0", "lines": list(tables[n]) if rng.random() < 0.5 else [P],
+                        "current": rng.random() < 0.8})
+        elif r < 0.7:
+            ops.append({"op": "uncurrent", "name": n})
+    rng.shuffle(ops)
+    return {"world": world, "top": "p6", "topv": v["p6"], "plist": {}, "force": False, "evolve": ops, "texts": [],
+            "reexpand": rng.random() < 0.5, "install_reexpanded": rng.random() < 0.3, "build_deps": build}
+
+
+JUST_ARG_RE = re.compile(r"\(\s*(?:-j\s+)?([^\s,()-][^\s,()]*)")
+
+
+def just_below_keys(case, records):
+    """histogram keys: products that a set-up dependency's table sets up alone (-j), by how the top table names them"""
+    top, topv = case["top"], case["topv"]
+    prods = case["world"]["products"]
+    top_lines = [strip_comment(ln) for ln in prods[top][topv]]
+    keys = set()
+    for n, ver in sorted(records.items()):
+        if n == top or ver not in prods.get(n, {}):
+            continue
+        for ln in prods[n][ver]:
+            m = JUST_ARG_RE.search(ln) if is_setup_line(ln) and re.search(r"\s-j\b", ln) else None
+            if not m or m.group(1) not in records:
+                continue
+            x = m.group(1)
+            mine = [i for i, t in enumerate(top_lines) if is_setup_line(t) and re.search(r"\(\s*(-j\s+)?%s[\s,)]" % re.escape(x), t)]
+            bring = [i for i, t in enumerate(top_lines) if is_setup_line(t) and i not in mine]
+            if not mine:
+                keys.add("not-named-by-the-top-table")
+            elif all(re.search(r"\s-j\b", top_lines[i]) for i in mine):
+                keys.add("named-by-the-top-table-with-j")
+            else:
+                keys.add("named-by-the-top-table-" + ("after" if bring and min(bring) < min(mine) else "before") + "-other-setup-lines")
+    return sorted(keys)
+
+
 # ---- tables that have been expanded before
 
 def reexpansion_shape(text):
@@ -1413,6 +1503,8 @@ def evaluate(ctx, cases, results):
                 if ver in TAG_NAMES:
                     tagged = c["world"]["current"].get(n) if ver == "current" else wtags.get(ver, {}).get(n)
                     ctx.bump("set-up-version-named-like-a-tag" + ("/tag-on-another-version" if tagged not in (None, ver) else ""))
+            for k in just_below_keys(c, b["records"]):
+                ctx.bump("set-up-alone-by-a-dependency-table/" + k + ("/build-of-several-requests" if c.get("build_deps") else ""))
             if any(IF_EXACT_RE.match(strip_comment(ln)) for ln in top_text.split("\n")):
                 for k in reexpansion_shape(top_text):
                     ctx.bump("top-table-expanded-before/" + k)
@@ -1737,7 +1829,11 @@ def setup_ctx(ctx):
                 "lines and a flavor conditional behind the setups; dependencies set up one by one: top-table-expanded-before/<shape>); "
                 "two cases in 16 from a sixth family (versions over the whole legal alphabet - dashes followed by flag letters, two "
                 "dashes, plus signs: set-up-version-with-a-dash-word[/holds-dash-j]/named-on-a-line-of-the-top-table | /below); two in "
-                "16 from a seventh (one or both switches off over lines with constraints of every form); every case carries an "
+                "16 from a seventh (one or both switches off over lines with constraints of every form); two in 16 from an eighth "
+                "(a line of a DEPENDENCY's table, directly below the top table or one level down, sets a product up alone with -j, "
+                "and the top table names that product on a line of its own after / before the line bringing that dependency, "
+                "with -j, or not at all; that product has dependencies of its own, one or two levels; the build is made of "
+                "several requests in either order: set-up-alone-by-a-dependency-table/<how the top table names it>); every case carries an "
                 "entrance (app.expandTableFile 65% / the eups expandtable command 35%) and the switches expandVersions, addExactBlock "
                 "(both on 75%, -N 12%, --noExact 9%, both off 4%): entrance:<entrance>/expandVersions=..,addExactBlock=../<verdict>, "
                 "switch-off/exact-block-<written|absent>/expressions-<written|absent>; "
@@ -1786,7 +1882,8 @@ def run(ctx):
                      gen_tagname_case(ctx.rng) if k % 16 == 9 else
                      gen_installed_case(ctx.rng) if k % 16 in (1, 13) else
                      gen_failed_optional_case(ctx.rng) if k % 8 == 3 else
-                     gen_spelling_case(ctx.rng) if k % 16 == 5 else gen_case(ctx.rng))
+                     gen_spelling_case(ctx.rng) if k % 16 == 5 else
+                     gen_just_below_case(ctx.rng) if k % 16 in (4, 12) else gen_case(ctx.rng))
         if "opts" not in cases[-1]:
             cases[-1]["opts"] = gen_opts(ctx.rng)
     for c in cases[:2]:
